@@ -63,6 +63,7 @@ end generic
 
 theorem evalK_var (x : Nat) (t : Ty) : evalK x t .var = some (x, some t) := rfl
 
+set_option linter.unusedSimpArgs false in
 /-- The extracted spec of every built-in key is sound for the capacity of its backing integer. -/
 theorem builtin_sound : ∀ spec ∈ Extracted.keySpecs, KeySound spec (capacityOf spec.backing) := by
   intro spec hs
@@ -73,8 +74,12 @@ theorem builtin_sound : ∀ spec ∈ Extracted.keySpecs, KeySound spec (capacity
     all_goals simp only [tryFromUsize, evalK, Ty.modulus, unifyTy, fitsTy, tyCompat, keyOfIndex, capacityOf]
     · by_cases h : i < 18446744073709551615
       · have h2 : i + 1 < 18446744073709551616 := by omega
-        simp [h, h2]
-      · simp [h]
+        have h3 : i ≠ 18446744073709551615 := by omega
+        have h4 : 18446744073709551615 ≠ i := by omega
+        simp [h, h2, h3, h4]
+      · have h3 : i = 18446744073709551615 := by omega
+        subst h3
+        simp
     · by_cases h : i < 4294967295
       · have h1 : i % 4294967296 = i := Nat.mod_eq_of_lt (by omega)
         have h2 : i + 1 < 4294967296 := by omega
